@@ -132,6 +132,13 @@ class FnAnalysis:
         neg = False
         if isinstance(t, ast.UnaryOp) and isinstance(t.op, ast.Not):
             neg, t = True, t.operand
+        if isinstance(t, ast.Name) and t.id in st.get('alias', {}):
+            expr, var, ver = st['alias'][t.id]
+            if st['ver'].get(var, 0) == ver:
+                # a local holding `seed is not None` etc., still current
+                t = expr
+                if isinstance(t, ast.UnaryOp) and isinstance(t.op, ast.Not):
+                    neg, t = (not neg), t.operand
         none_var = None
         if isinstance(t, ast.Compare) and len(t.ops) == 1 and isinstance(
                 t.left, ast.Name) and t.left.id in st['vars'] \
@@ -276,49 +283,82 @@ class FnAnalysis:
             if isinstance(n, ast.Call):
                 self.scan_call(n, st)
 
-    def assign(self, tgt, value, st):
-        v = value
-        new = None
+    def abstract(self, v, st):
+        """-> (abstract seed value or None, derived from the seed?)"""
+        if isinstance(v, ast.IfExp):
+            a, b, _ = self.refine(v.test, st)
+            va, da = self.abstract(v.body, a) if self.feasible(a) \
+                else (frozenset(), False)
+            vb, db = self.abstract(v.orelse, b) if self.feasible(b) \
+                else (frozenset(), False)
+            if va is None or vb is None:
+                return None, da or db
+            return va | vb, da or db
+        if isinstance(v, ast.Constant) and v.value is None:
+            return frozenset({'NONE'}), False
         if isinstance(v, ast.Call) and U(v.func) in (
                 'np.random.default_rng', 'numpy.random.default_rng'):
-            new = frozenset({'GEN'})
-            if self.is_derived(v, st):
-                st['derived'].add(tgt)
-        elif isinstance(v, ast.Name) and v.id in st['vars']:
-            new = st['vars'][v.id]
-            if v.id in st['derived']:
-                st['derived'].add(tgt)
-        elif isinstance(v, ast.Call) and isinstance(
+            return frozenset({'GEN'}), self.is_derived(v, st)
+        if isinstance(v, ast.Name) and v.id in st['vars']:
+            return st['vars'][v.id], v.id in st['derived']
+        if isinstance(v, ast.Call) and isinstance(
                 v.func, ast.Attribute) and v.func.attr in (
                 'integers', 'randint') and self.is_derived(v.func.value, st):
-            new = frozenset({'INT'})
-            st['derived'].add(tgt)
-        elif isinstance(v, ast.Call) and isinstance(v.func, ast.Name) \
+            return frozenset({'INT'}), True
+        if isinstance(v, ast.Call) and isinstance(v.func, ast.Name) \
                 and v.func.id == 'int' and v.args:
             inner = v.args[0]
             if isinstance(inner, ast.Call) and isinstance(
                     inner.func, ast.Attribute) and inner.func.attr in (
                     'integers', 'randint') and self.is_derived(
                         inner.func.value, st):
-                new = frozenset({'INT'})
-                st['derived'].add(tgt)
-            elif self.is_derived(inner, st):
-                new = frozenset({'INT'})
-                st['derived'].add(tgt)
-        elif isinstance(v, (ast.BinOp,)) and self.is_derived(v, st):
-            new = frozenset({'INT'})
-            st['derived'].add(tgt)
-        elif tgt in st['vars']:
-            # rebinding to something unknown
-            if self.is_derived(v, st):
-                new = ALL
+                return frozenset({'INT'}), True
+            if self.is_derived(inner, st):
+                return frozenset({'INT'}), True
+            return None, False
+        if isinstance(v, (ast.BinOp,)) and self.is_derived(v, st):
+            return frozenset({'INT'}), True
+        return None, self.is_derived(v, st)
+
+    def assign(self, tgt, value, st):
+        v = value
+        # boolean alias of a None-test / isinstance test on a tracked value
+        st.setdefault('alias', {})
+        st['alias'] = dict(st['alias'])
+        st['alias'].pop(tgt, None)
+        probe = v
+        if isinstance(probe, ast.UnaryOp) and isinstance(probe.op, ast.Not):
+            probe = probe.operand
+        tracked = None
+        if isinstance(probe, ast.Compare) and isinstance(
+                probe.left, ast.Name) and probe.left.id in st['vars'] \
+                and len(probe.ops) == 1 and isinstance(
+                probe.comparators[0], ast.Constant) \
+                and probe.comparators[0].value is None:
+            tracked = probe.left.id
+        if isinstance(probe, ast.Call) and U(probe.func) == 'isinstance' \
+                and probe.args and isinstance(probe.args[0], ast.Name) \
+                and probe.args[0].id in st['vars']:
+            tracked = probe.args[0].id
+        if tracked is not None:
+            st['alias'][tgt] = (v, tracked, st['ver'].get(tracked, 0))
+            return
+        new, derived = self.abstract(v, st)
+        if new is None:
+            if tgt in st['vars']:
+                # rebinding to something unknown
+                if derived:
+                    new = ALL
+                else:
+                    st['vars'].pop(tgt, None)
+                    st['derived'].discard(tgt)
+                    return
             else:
-                st['vars'].pop(tgt, None)
-                st['derived'].discard(tgt)
                 return
-        if new is not None:
-            st['vars'][tgt] = new
-            st['ver'][tgt] = st['ver'].get(tgt, 0) + 1
+        if derived:
+            st['derived'].add(tgt)
+        st['vars'][tgt] = new
+        st['ver'][tgt] = st['ver'].get(tgt, 0) + 1
 
     def scan_call(self, n, st):
         f = U(n.func)
